@@ -9,6 +9,7 @@ package main
 // detector during the batch is attached to the first event (race = 1), which TLC never accepts.
 
 import (
+	"encoding/json"
 	"math/rand"
 	"os"
 	"path/filepath"
@@ -46,7 +47,23 @@ func (x *Exec) fork() *Exec {
 
 var concOverlap int64 // number of batches in which at least two goroutines were inside an operation at once
 
+// noteInflight records the scenario about to run a concurrent batch (VERIF_INFLIGHT names the file): the
+// Go runtime ends the whole process on some concurrency errors ("fatal error: concurrent map writes"),
+// which no recover() can intercept; the runner then knows which scenario to execute again.
+func noteInflight(sc *Scenario, scn int) {
+	path := os.Getenv("VERIF_INFLIGHT")
+	if path == "" {
+		return
+	}
+	cp := *sc
+	cp.ID = scn
+	if b, err := json.Marshal(&cp); err == nil {
+		os.WriteFile(path, append(b, '\n'), 0o644)
+	}
+}
+
 func (x *Exec) runConcurrent(sc *Scenario, st *Step) {
+	noteInflight(sc, x.scn)
 	reps := 1
 	if st.A > 0 {
 		reps = st.A
